@@ -147,6 +147,13 @@ def laws(ld):
         if not Pred(3)(x):
             raise ld.core.FilterException()
         return x
+    from ..terms import TRUTH_STYLES, truthy
+    for style in TRUTH_STYLES[1:]:
+        def pred(x, style=style):
+            return truthy(sid(x) % 3 != 0, style, sid(x))
+        L[f'filter-lazy=eager-{style}-0'] = (
+            lambda d, pred=pred: d.filter(pred),
+            lambda d, pred=pred: (need(d.indexable), d.filter(pred, lazy=False))[1])
     L['filter-lazy=eager'] = (lambda d: d.filter(Pred(3)),
                               lambda d: (need(d.indexable), d.filter(Pred(3), lazy=False))[1])
     L['filter-lazy=catch'] = (lambda d: d.filter(Pred(3)),
